@@ -104,6 +104,10 @@ def same(ctx, rule, instance, fi, got, want, what, stmt=None, node=None):
         with open(os.environ["PCSTATIC_DEBUG_TERMS"], "a") as fh:
             from .debug import report
             fh.write("==== %s / %s\n-- witness %s\n%s\n" % (rule, instance, wit, report(got, want, (wit or {}).get("trial", 0))))
+        if os.environ.get("PCSTATIC_DEBUG_PICKLE"):
+            import pickle
+            with open(os.environ["PCSTATIC_DEBUG_PICKLE"], "ab") as fh:
+                pickle.dump((rule, instance, vkey(got), vkey(want), wit), fh)
     ctx.fail(
         rule,
         instance,
